@@ -36,6 +36,7 @@ ASSUMPTIONS = [
 ]
 BOUNDS = {"quick": {"bs": [2]}, "thorough": {"bs": [2, 3]}}
 KEYS3 = ["a", "b", "c"]
+OBS_B = np.array([[0.9], [-1.1], [0.35], [0.6]])
 CALLER = {"a": np.asarray(0.7), "b": np.asarray([-0.4]), "c": np.asarray([0.3, 1.1])}
 
 
@@ -46,7 +47,11 @@ def cases(tier, seed):
             for sub in itertools.combinations(KEYS3, r):
                 for site in ("network", "equation", "both"):
                     for b in BOUNDS[tier]["bs"]:
-                        out.append(dict(type="batch", kind=kind, batched=list(sub), site=site, b=b))
+                        out.append(dict(type="batch", kind=kind, batched=list(sub), site=site, b=b, obs_param=False))
+                    if site == "both":
+                        # the observation part carries an observed column of 'b' as well (it overrides both the caller's
+                        # value and the parameter batch, for the observation term only)
+                        out.append(dict(type="batch", kind=kind, batched=list(sub), site=site, b=2, obs_param=True))
     for kind in ("ode", "statio", "nonstatio"):
         for hmap in itertools.product(("undeclared", "none", "fun"), repeat=3):
             out.append(dict(type="hetero", kind=kind, hmap=list(hmap)))
@@ -114,13 +119,15 @@ def build(case, hetero=None):
     use_net = case.get("site", "both") in ("network", "both")
     use_eq = case.get("site", "both") in ("equation", "both")
     u, coef, expo = L.make_u(bk, d, 1, deg=2, salt=6, input_transform=in_tr_net if use_net else None)
-    eqp = {k: jnp.asarray(v) for k, v in CALLER.items()}
+    eqp = {k: jnp.asarray(CALLER[k]) for k in ("c", "a", "b")}  # non-alphabetical insertion order
     EQC = {"ode": EqO, "statio": EqS, "nonstatio": EqN}[bk]
     sysk = "u" if kind.startswith("sys") else None
     dyn = EQC(use_eq=use_eq, key=sysk, eq_params_heterogeneity=hetero)
     obs_rows = case.get("b", 2)
     nv = L.nvar_of(bk, d)
     obs = {"pinn_in": jnp.asarray(L.points(obs_rows, nv, salt=8)), "val": jnp.asarray(np.linspace(0.2, 0.6, obs_rows)[:, None]), "eq_params": {}}
+    if case.get("obs_param"):
+        obs["eq_params"] = {"b": jnp.asarray(OBS_B[:obs_rows])}
     if kind in ("ode", "statio", "nonstatio"):
         params = jinns.parameters.Params(nn_params=u.init_params(), eq_params=eqp)
         if bk == "ode":
@@ -154,7 +161,7 @@ def rows_of(key, b):
     return np.array([[0.1 + 0.2 * i, 1.5 - 0.3 * i] for i in range(b)])
 
 
-def oracle_terms(P, pts, obs_raw, vals):
+def oracle_terms(P, pts, obs_raw, vals, obs_over=None):
     """vals: dict key -> (rows, dim) array per sample (batched) or caller value broadcast"""
     bk, d = P["bk"], P["d"]
 
@@ -171,7 +178,11 @@ def oracle_terms(P, pts, obs_raw, vals):
     out = {"dyn_loss": float(np.mean(r**2))}
     # observations: row i of the observation table with row i of the batched keys
     zo = np.asarray(obs_raw["pinn_in"])
-    Uo = net(zo, a[: len(zo)], b[: len(zo)], c[: len(zo)])
+    ao, bo, co = a[: len(zo)], b[: len(zo)], c[: len(zo)]
+    if obs_over:  # observed equation parameters: row i of the observation goes with row i of the observed column
+        ao = np.asarray(obs_over["a"]).reshape(-1) if "a" in obs_over else ao
+        bo = np.asarray(obs_over["b"]).reshape(-1) if "b" in obs_over else bo
+    Uo = net(zo, ao, bo, co)
     out["observations"] = float(np.mean((Uo - np.asarray(obs_raw["val"])[:, 0]) ** 2))
     if bk == "ode":
         U0 = net(np.full((B, 1), 0.3), a, b, c)
@@ -197,7 +208,7 @@ def run_batch(case):
     site = f"param_batch/{kind}"
     nv = L.nvar_of(P["bk"], P["d"])
     pts = L.points(b, nv)
-    pb = {k: jnp.asarray(rows_of(k, b)) for k in case["batched"]} or None
+    pb = {k: jnp.asarray(rows_of(k, b)) for k in reversed(case["batched"])} or None
     batch = L.make_batch(P["bk"], pts, param=pb, obs=P["obs"])
     params = P["params"]
     snap = snapshot(params)
@@ -208,7 +219,8 @@ def run_batch(case):
         v.append(V(site, "callers_parameters_modified_by_evaluate", f"batched {case['batched']}: eq_params shapes now { {k: np.asarray(x).shape for k, x in params.eq_params.items()} }"))
         return dict(viol=v, evals=1, nontrivial=[str(case)])
     vals = {k: (rows_of(k, b) if k in case["batched"] else np.broadcast_to(CALLER[k].reshape(1, -1), (b, CALLER[k].size))) for k in KEYS3}
-    exp = oracle_terms(P, pts, P["obs_raw"], vals)
+    over = {"b": OBS_B[:b]} if case.get("obs_param") else None
+    exp = oracle_terms(P, pts, P["obs_raw"], vals, over)
     for k, e in exp.items():
         if not close(terms.get(k, float("nan")), e):
             v.append(V(site, "term_is_not_the_per_sample_formula", f"batched {case['batched']} consumed in {case['site']}: {k} = {terms.get(k)} expected {e}"))
@@ -229,7 +241,7 @@ def run_batch(case):
                     arr = np.array(vv[k], dtype=float)
                     arr[:, comp] += delta
                     vv[k] = arr
-                    return sum(oracle_terms(P, pts, P["obs_raw"], vv).values())
+                    return sum(oracle_terms(P, pts, P["obs_raw"], vv, over).values())
                 fd = (F(h) - F(-h)) / (2 * h)
                 if abs(fd - gk[comp]) > 1e-6 * (1 + abs(fd)):
                     v.append(V(site, "gradient_wrt_unbatched_key_is_not_the_sum_of_per_sample_gradients", f"key {k}[{comp}] batched {case['batched']}: {gk[comp]} vs {fd}"))
